@@ -72,6 +72,11 @@ func init() {
 	pureAssume := []string{"the reference models in harness/refmodel are correct (they are written from the property text and are a few lines each)"}
 	props["C12"] = propCfg{Pkg: "./pure", Test: "TestC12", ExtraRun: "^TestC12Exhaustive$", Level: "exploration",
 		Quick: tierCfg{Shards: 4, Checks: 20000}, Thorough: tierCfg{Shards: 16, Checks: 1000000}, Assumptions: pureAssume}
+	props["C18"] = propCfg{Pkg: "./logm", Test: "TestC18", ExtraRun: "^TestC18MemExhaustive$", Level: "exploration",
+		Quick: tierCfg{Shards: 8, Checks: 4000}, Thorough: tierCfg{Shards: 16, Checks: 300000},
+		Assumptions: []string{"the abstract log and the reference follower in harness/logm are correct (textbook append/compact/install-snapshot semantics)",
+			"the scripted cluster of driver L3 only emits messages a correct leader could have sent (leader completeness is enforced by the script)",
+			"VerifLog is a pure pass-through to raftLog"}}
 	props["C13"] = propCfg{Pkg: "./pure", Test: "TestC13", ExtraRun: "^TestC13Closure$", Level: "exploration",
 		Quick: tierCfg{Shards: 8, Checks: 2500}, Thorough: tierCfg{Shards: 16, Checks: 100000}, Assumptions: pureAssume}
 }
@@ -294,6 +299,7 @@ func main() {
 			cmd.Stdout, cmd.Stderr = &buf, &buf
 			err := cmd.Run()
 			r := &shardResult{idx: i, out: buf.String(), dur: time.Since(t0)}
+			_ = os.WriteFile(filepath.Join(sd, "output.log"), []byte(filterDraws(r.out)), 0o644)
 			if err != nil {
 				if ee, ok := err.(*exec.ExitError); ok {
 					r.exit = ee.ExitCode()
